@@ -56,14 +56,17 @@ COUNTERS_NEW = ["cc", "cd"]
 IFS = ["sa", "sb"]
 LETCHARS = ["u", "v", "w"]
 
+# uea/ueb/uec: environments made by \newenvironment (empty begin and end part; both parts \relax; empty
+# begin part only).  \begin opens a group and \end closes it whatever the two parts contain.
+USER_ENVS = {"uea": ("", ""), "ueb": ("\\relax ", "\\relax "), "uec": ("", "\\relax ")}
 GROUP_KINDS = ["brace", "begingroup", "center", "quote", "itemize", "tabular", "dollar",
-               "paren", "bracket", "textbf", "mbox", "footnote"]
+               "paren", "bracket", "textbf", "mbox", "footnote", "uea", "ueb", "uec"]
 ARG_KINDS = ("textbf", "mbox", "footnote")
 MAX_DEPTH = 6
 
 _ALLOWED_IN = {
     "par": set(GROUP_KINDS),
-    "lr": set(["brace", "begingroup", "dollar", "paren", "textbf", "mbox", "tabular"]),
+    "lr": set(["brace", "begingroup", "dollar", "paren", "textbf", "mbox", "tabular", "uea", "ueb", "uec"]),
     "math": set(["brace", "begingroup", "textbf", "mbox"]),
 }
 _CHILD_MODE = {"center": "par", "quote": "par", "itemize": "par", "tabular": "lr",
@@ -77,6 +80,10 @@ _CLOSE = {"brace": "}", "begingroup": "\\endgroup ", "center": "\\end{center}",
           "quote": "\\end{quote}", "itemize": "\\end{itemize}", "dollar": "$",
           "paren": "\\)", "bracket": "\\]", "textbf": "}", "mbox": "}", "footnote": "}",
           "tabular": "\\end{tabular}"}
+
+for _k in USER_ENVS:
+    _OPEN[_k] = "\\begin{%s}" % _k
+    _CLOSE[_k] = "\\end{%s}" % _k
 
 # tags of the known deviations (bucket key = "text-mismatch:" + tag)
 T_GLOBAL = "global-prefix"
@@ -730,6 +737,8 @@ def run_program(case):
     if wrap:
         m.src.append("\\documentclass{article}\n")
     m.walk(prefix_nodes())
+    for k in sorted(USER_ENVS):
+        m.src.append("\\newenvironment{%s}{%s}{%s}" % ((k,) + USER_ENVS[k]))
     m.src.append("\n")
     if wrap:
         m.src.append("\\begin{document}")
